@@ -10,7 +10,7 @@ from .. import entrypoints as E
 from .. import world as W
 from ..interp import Obj, Unsupported
 from ..report import AnalysisError, Finding
-from ..series import Lin, SeriesAlgebra, T, h, j
+from ..series import Lin, SeriesAlgebra, T, UnknownOperator, h, j
 from ..term import Op, Sym, walk
 
 S_ = sp.Function("spot")
@@ -53,6 +53,8 @@ def check(ctx, run):
         A = SeriesAlgebra(bases=("spot", "unit"), scalars=("payoff",), per_hedge=("cost",))
         try:
             got = A.lin(A.ev(r["value"]))
+        except UnknownOperator as ex:
+            raise AnalysisError(f"pl [{case}]: the column algebra has no meaning for the operator {ex}")
         except (NotImplementedError, ValueError, KeyError) as ex:
             # R2: a shape/axis inconsistency shows up as a failure to build the normal form
             run.oblige("C01.R1", case, False, f"cannot build the normal form: {ex}")
